@@ -339,6 +339,18 @@ class Engine(object):
                     return Z(v.t, ("inst", st.objcls[cid]))
         return v
 
+    def refine_any(self, st, v, attr):
+        """An untyped value whose class tag is provably that of a repository class having `attr`: give it that type."""
+        if not (isinstance(v, Z) and v.sort == "val" and v.ty in (None, "any")):
+            return v
+        for ci in self.repo.classes.values():
+            if ci.builtin or ci.node is None:
+                continue
+            if attr in self.instance_fields(ci.name) or self.repo.lookup_method(ci.name, attr)[1] is not None:
+                if self.must(st, z3.And(Val.is_ref(v.t), cls_of(Val.id(v.t)) == ci.tag)):
+                    return Z(v.t, ("inst", ci.name))
+        return v
+
     def class_of_value(self, st, v):
         """Static class name of a value if known."""
         if isinstance(v, Z):
@@ -740,13 +752,21 @@ class Engine(object):
                 ci, f = self.repo.lookup_method(base.name, expr.attr)
                 if isinstance(f, Func):
                     return f
+            cn = self.class_of_value(st, base) if st is not None else None
+            if cn is not None:
+                ci, f = self.repo.lookup_method(cn, expr.attr)
+                if isinstance(f, Func):
+                    return Bound(base, f, ci.name)
         if isinstance(expr, ast.Call):
             fn = expr.func
             fname = fn.id if isinstance(fn, ast.Name) else (fn.attr if isinstance(fn, ast.Attribute) else None)
             if fname == "namedtuple":
                 return Cls(self.b.namedtuple_class(self, mi, expr))
             if fname == "LogWrapper" or fname == "getLogger":
-                return Z(ref(700000 + STRINGS.get("logger:%s.%s" % (mi.name, name))), "logger")
+                t = ref(700000 + STRINGS.get("logger:%s.%s" % (mi.name, name)))
+                if st is not None:
+                    st.assume(cls_of(Val.id(t)) == self.tag("Logger"))
+                return Z(t, "logger")
             if fname == "object":
                 return Z(ref(700000 + STRINGS.get("sentinel:%s.%s" % (mi.name, name))), ("inst", "object"))
         raise Unsupported("module-level name %s.%s" % (mi.name, name))
